@@ -250,6 +250,16 @@ def AluOp.ofName : String → Option AluOp
   | "SUB" => some .SUB | "SUBI" => some .SUBI | "XOR" => some .XOR | "XORI" => some .XORI
   | _ => none
 
+/-- the argument shape each ALU opcode has in `impl_instructions!` (checked against the generated table in Props/C21) -/
+def AluOp.shape : AluOp → List Instr.ArgKind
+  | .ADD | .AND | .DIV | .EQ | .EXP | .GT | .LT | .MLOG | .MOD | .MROO | .MUL | .OR | .SLL | .SRL | .SUB | .XOR => [.reg, .reg, .reg]
+  | .ADDI | .ANDI | .DIVI | .EXPI | .MODI | .MULI | .ORI | .SLLI | .SRLI | .SUBI | .XORI => [.reg, .reg, .imm12]
+  | .MOVE | .NOT => [.reg, .reg]
+  | .MOVI => [.reg, .imm18]
+  | .MLDV => [.reg, .reg, .reg, .reg]
+  | .NIOP => [.reg, .reg, .reg, .imm06]
+  | .NOOP => []
+
 /-- `u128::overflowing_add(b, c).0` -/
 def u128Add (b c : Nat) : Nat := (b + c) % 2 ^ 128
 /-- `u128::overflowing_sub(b, c).0` -/
